@@ -80,7 +80,16 @@ var options = []option{
 	{"plugin.foo.key", `plugin "foo"`, "key", kPlugin, func(c *core.Configuration) any { return pluginKey(c, "key") }, (*[]string)(nil), false},
 	{"plugin.foo.other", `plugin "foo"`, "other", kPlugin, func(c *core.Configuration) any { return pluginKey(c, "other") }, (*[]string)(nil), false},
 	{"display.updatetitle", "display", "updatetitle", kBool, func(c *core.Configuration) any { return strconv.FormatBool(c.Display.UpdateTitle) }, "false", false},
+	// cli.Version: a field whose UnmarshalFlag works on the existing value (the ">=" flag is part of the value)
+	{"please.version", "please", "version", kStr, func(c *core.Configuration) any {
+		if !c.Please.Version.IsSet {
+			return ""
+		}
+		return c.Please.Version.String()
+	}, "", false},
 }
+
+const optVersion = 13
 
 // ---------------------------------------------------------------- scenario
 
@@ -613,6 +622,22 @@ func classify(sc *scenario, ref refOut, i int, real any) string {
 		}
 		return "mapkey-mismatch"
 	}
+	if i == optVersion {
+		// the ">=" of a lower layer survives a higher layer that sets a plain version
+		want, _ := ref.vals[i].(string)
+		got, _ := real.(string)
+		sticky := false
+		for _, f := range ref.perFile {
+			for _, s := range f {
+				if s.opt == i && strings.HasPrefix(s.val, ">=") {
+					sticky = true
+				}
+			}
+		}
+		if sticky && got == ">="+want {
+			return "version-gte-sticky"
+		}
+	}
 	return "single-mismatch"
 }
 
@@ -682,6 +707,8 @@ func genVal(r *lib.Run, o int) string {
 		return strconv.Itoa(r.Rng.Intn(100))
 	case options[o].kind == kBool:
 		return lib.Pick(r.Rng, []string{"true", "false"})
+	case o == optVersion: // with and without the >= prefix
+		return lib.Pick(r.Rng, []string{"1.2.3", ">=1.2.3", "17.0.0", ">=17.0.0", "16.28.1", ">=0.0.1"})
 	case o == 7: // cli.URL: the value must parse as a URL, anything else is a (legitimate) read error
 		return lib.Pick(r.Rng, []string{"http://a", "https://b/c", "http://d?e=f", "u", "http://x,y", "https://repo1.maven.org/maven2"})
 	}
@@ -757,7 +784,8 @@ func genScenario(r *lib.Run) *scenario {
 				o = r.Rng.Intn(len(options))
 			}
 			// at most one override per field: 8 and 9 both land on "foo-bar" and Go's map order would decide
-			if used[o] || (o == 8 && used[9]) || (o == 9 && used[8]) {
+			// please.version is a struct field: ApplyOverrides refuses it ("can't override config field of type struct")
+			if o == optVersion || used[o] || (o == 8 && used[9]) || (o == 9 && used[8]) {
 				continue
 			}
 			used[o] = true
@@ -828,6 +856,23 @@ func main() {
 					}
 					runOp(r, sc.op())
 					r.Count("exhaustive-list-seqs")
+				}
+			}
+		}
+	}
+	// (2b) please.version: every ordered pair of the ten sources x {plain, >=} x {plain, >=}, and triples along the documented order
+	vv := []string{"1.2.3", ">=1.2.3", "17.0.0", ">=17.0.0"}
+	for i, k1 := range keys {
+		for j, k2 := range keys {
+			if i == j {
+				continue
+			}
+			for a := 0; a < 2; a++ {
+				for b := 2; b < 4; b++ {
+					sc := &scenario{profiles: 1, sources: []source{
+						{k1.role, k1.p, []stmt{{opt: optVersion, val: vv[a]}}}, {k2.role, k2.p, []stmt{{opt: optVersion, val: vv[b]}}}}}
+					runOp(r, sc.op())
+					r.Count("version-layer-pairs")
 				}
 			}
 		}
